@@ -22,5 +22,12 @@ REGISTRY = {
         note=_BOUNDED),
 }
 
+REGISTRY["C20"] = dict(
+    modules=["harness.c20_kernels"], e2=True, engine="E2-pybmc",
+    technique="pybmc (AST -> z3 bit-vectors, path forking) on the real varint/zig-zag/delta/GInts/Simple16/GrowableArray code; CrossHair on tables and id sets",
+    text="The number codecs are interpreted from source over z3 bit-vectors: encode-then-decode equals identity on every feasible "
+         "path for the stated ranges/lengths (negated round trip unsat per path, no-overflow and unwinding obligations discharged).",
+    note=_BOUNDED)
+
 _PENDING = "check not built yet in this round (work in progress; see DESIGN.md section 4)"
 NOT_APPLICABLE = {("C%02d" % i): _PENDING for i in range(1, 21) if ("C%02d" % i) not in REGISTRY}
